@@ -68,8 +68,18 @@ def runA {α : Type} : Prog α → View → Fin α × View
      | .tok t v' => runA (k (some t)) v'
      | .finished .done v' => runA (k none) v'
      | .finished st v' => (.stop st, v'))
-  | .getToks k, v => runA (k v.core.tokens) v
-  | .setToks ts k, v => runA k { v with core := { v.core with tokens := ts } }
+  | .peekAt i k, v =>
+    (match peekWaitA i v.exprs v.runes v.core with
+     | .tok _ v' =>
+       (match v'.core.tokens[i]? with
+        | some t => runA (k t) v'
+        | none => (.stop .err, v'))
+     | .stop st v' => (.stop st, v'))
+  | .getTok k, v =>
+    (match peekWaitA 0 v.exprs v.runes v.core with
+     | .tok t v' => runA (k t) { v' with core := { v'.core with tokens := v'.core.tokens.tail } }
+     | .stop st v' => (.stop st, v'))
+  | .pushTok t k, v => runA k { v with core := { v.core with tokens := t :: v.core.tokens } }
   | .pushExpr e k, v => runA k { v with exprs := v.exprs ++ [e] }
 
 /-- the lexer always has a current stream while a text is being parsed -/
@@ -392,12 +402,33 @@ theorem run_view {α : Type} (p : Prog α) (s : PState) (hi : Inv s) :
       | done => simpa [TopOut.toA] using ih none s' hinv
       | more => simp [TopOut.toA]
       | err => simp [TopOut.toA]
-  | getToks k ih =>
-    have ht : (view s).core.tokens = s.lex.tokens := rfl
-    simp only [run, runA, ht]
-    exact ih s.lex.tokens s hi
-  | setToks ts k ih =>
-    have := ih { s with lex := { s.lex with tokens := ts } } (by simpa [Inv] using hi)
+  | peekAt n k ih =>
+    have hsim := peekWait_sim n (s.size + 1) s hi (Nat.lt_succ_self _)
+    simp only [run, runA]
+    have hv : (view s).exprs = s.exprs ∧ (view s).runes = s.runes ∧ (view s).core = s.lex.toLexCore := ⟨rfl, rfl, rfl⟩
+    rw [hv.1, hv.2.1, hv.2.2, ← hsim.1]
+    cases hpw : peekWaitRun n (s.size + 1) s with
+    | tok t s' =>
+      have hinv : Inv s' := by simpa [hpw, PeekOut.inv] using hsim.2
+      have ht : (view s').core.tokens = s'.lex.tokens := rfl
+      simp only [PeekOut.toA, ht]
+      cases hq : s'.lex.tokens[n]? with
+      | some t' => simpa using ih t' s' hinv
+      | none => simp
+    | stop st s' => simp [PeekOut.toA]
+  | getTok k ih =>
+    have hsim := peekWait_sim 0 (s.size + 1) s hi (Nat.lt_succ_self _)
+    simp only [run, runA]
+    have hv : (view s).exprs = s.exprs ∧ (view s).runes = s.runes ∧ (view s).core = s.lex.toLexCore := ⟨rfl, rfl, rfl⟩
+    rw [hv.1, hv.2.1, hv.2.2, ← hsim.1]
+    cases hpw : peekWaitRun 0 (s.size + 1) s with
+    | tok t s' =>
+      have hinv : Inv s' := by simpa [hpw, PeekOut.inv] using hsim.2
+      have := ih t { s' with lex := { s'.lex with tokens := s'.lex.tokens.tail } } (by simpa [Inv] using hinv)
+      simpa [PeekOut.toA, view, runes_of_pending, LexState.pending] using this
+    | stop st s' => simp [PeekOut.toA]
+  | pushTok t k ih =>
+    have := ih { s with lex := { s.lex with tokens := t :: s.lex.tokens } } (by simpa [Inv] using hi)
     simpa [run, runA, view, runes_of_pending, LexState.pending] using this
   | pushExpr e k ih =>
     have := ih { s with exprs := s.exprs ++ [e] } (by simpa [Inv] using hi)
